@@ -59,6 +59,17 @@ def gen_cases(rng, n, tier):
                         'expect': [N.exp_big(v), 'b|1'], 'tag': 'new', 'desc': 'BigNum::new(%d)' % v,
                         'tags': ['new>=2^32'] if abs(v) >= 2 ** 32 else [], 'trivial': abs(v) < 2 ** 31})
             continue
+        if rng.random() < 0.02:
+            # very long operands (32..80 limbs) made of RUNS of equal limbs (ffffffff.., 0.., 1..): sub-quadratic
+            # multiplication fast paths and long carry ripples live here; multiplication / addition only
+            a, b = N.rand_runs(rng, rng.randint(32, 100)), N.rand_runs(rng, rng.randint(32, 100))
+            if rng.random() < 0.3:
+                a = -a
+            op2 = rng.choice(['mul', 'mul', 'mulas', 'add', 'sub'])
+            v = a * b if op2 in ('mul', 'mulas') else (a + b if op2 == 'add' else a - b)
+            out.append({'script': '%s %s b%s %s beq out' % (N.limbs_tok(a), N.limbs_tok(b), op2, N.limbs_tok(v)), 'expect': ['b|1'],
+                        'tag': 'arith', 'tags': ['op:' + op2, 'very_long_operands'], 'desc': '%s on %d/%d-limb operands' % (op2, a.bit_length() // 32 + 1, b.bit_length() // 32 + 1), 'trivial': False})
+            continue
         a, b = _pair(rng, maxl)
         nl = max(a.bit_length(), b.bit_length()) // 32 + 1
         tags = ['limbs:%d' % min(nl, 25), 'signs:%s%s' % ('-' if a < 0 else '+', '-' if b < 0 else '+')]
@@ -150,7 +161,7 @@ def main(tier, seed):
     cov.update(extra)
     assumptions = ['Python int is the oracle', 'operands built with BigNum::from_vec + minus(), never parsed from decimal text',
                    'harness built with opt-level 2 but overflow checks and debug assertions ON; division operands capped at %d limbs (cubic cost)' % (8 if tier == 'quick' else 12)]
-    minimum = {'evaluations': (n, 5000), 'op:div': (hist.get('op:div', 0), 200), 'new': (hist.get('new', 0), 100)}
+    minimum = {'evaluations': (n, 5000), 'very long operands': (hist.get('very_long_operands', 0), 100), 'op:div': (hist.get('op:div', 0), 200), 'new': (hist.get('new', 0), 100)}
     return rep.finish(cov, assumptions, t0, minimum)
 
 
